@@ -316,9 +316,31 @@ func VerifH_C16_order_insensitive() {
 			},
 		}
 	}
+	corrupt := verifrt.Choice("corrupt", 3)
+	base := mk
+	mk = func() tWorkflow {
+		t := base()
+		switch corrupt {
+		case 1:
+			delete(t.steps[1].fields, "input") // required input of b missing
+		case 2:
+			t.steps[0].fields["wait_for"] = vx("steps", "zz", "outputs") // dangling reference in a
+		}
+		return t
+	}
 	verifObjCounter = 0
 	ew0, err0 := verifExecutor(run).Prepare(verifWorkflow(mk()), nil)
-	verifrt.Assert(err0 == nil, "the workflow is accepted")
+	verifrt.Assert((err0 == nil) == (corrupt == 0), "the workflow is accepted exactly when it is well-formed")
+	if corrupt != 0 {
+		k := verifrt.Choice("site", verifrt.Param("sites", 60))
+		verifrt.PermuteOnly(k)
+		_, err1 := verifExecutor(run).Prepare(verifWorkflow(mk()), nil)
+		if k < verifrt.PermuteOff() {
+			verifrt.Reach("permuted-invalid")
+			verifrt.Assert(err1 != nil, "the verdict does not depend on map iteration order")
+		}
+		return
+	}
 	if err0 != nil {
 		return
 	}
